@@ -89,6 +89,11 @@ def gen_cases(tier, seed):
     yield {"objs": [["f", ["i", "i"]]], "target": "", "spin": ""}
     yield {"objs": [["X", ["i", "a"]]], "target": "ia", "spin": "ab"}
     yield {"objs": [["V", ["i", "j", "a", "b"]], ["t", ["a", "b", "i", "j"]]], "target": "", "spin": ""}
+    # the search for the allowed spin blocks has to backtrack: the first tensor has several
+    # blocks that are compatible with the target spins, the later ones pin its contracted indices
+    for spin in ("abab", "baba", "aaaa", "abba"):
+        yield {"objs": [["V", ["i", "k", "c", "d"]], ["f", ["k", "j"]], ["f", ["c", "a"]], ["f", ["d", "b"]]],
+               "target": "ijab", "spin": spin}
     yield {"objs": [["V", ["i", "j", "a", "b"], 2]], "target": "", "spin": "", "expand": True}
     yield {"objs": [["V", ["i", "j", "a", "b"], 2]], "target": "ia", "spin": "ab", "expand": True}
     for _ in range(120 if tier == "quick" else 2500):
@@ -161,7 +166,7 @@ def check(case):
             return False, (f"integrate_spin({e}, '{tstr}', '{spins}') = {res}: value {v1}, "
                            f"spin orbital expression on the requested spins {v0} at {combo}")
     # allowed spin blocks of the expression: unreported blocks vanish
-    tabulated = all(o[0] in ("V", "t", "d") for o in case["objs"])
+    tabulated = all(o[0] in ("V", "t", "d", "f") for o in case["objs"])
     if tstr and tabulated:
         allowed = allowed_spin_blocks(e, tstr)
         for block in ("".join(b) for b in itertools.product("ab", repeat=len(targets))):
